@@ -70,6 +70,9 @@ func (s *scLife) Configure(w *World) {
 		if c.Faults {
 			c.W.ReplyErr, c.W.Stall = 2, 1
 			c.DelayFaults = true
+			if t.Draw(3, nil) == 0 {
+				c.W.ConnDrop = 1
+			}
 		}
 		c.W.Commit = 3
 	case "C01":
@@ -164,7 +167,19 @@ func (s *scLife) MayStall(w *World, c *Conn) bool {
 	return c.stalled
 }
 
-func (s *scLife) MayDrop(w *World, c *Conn) bool { return false }
+// MayDrop: C05 only, and only the KV / metadata connection while a checkpoint write waits on it (a
+// fault while idle tests nothing; dropping the DCP connection is C12's subject).
+func (s *scLife) MayDrop(w *World, c *Conn) bool {
+	if s.prop != "C05" || c.role == "d" || c.closed || c.zombie {
+		return false
+	}
+	for _, q := range c.queue {
+		if isCheckpointKey(q.pkt.Key) && q.pkt.Command != memd.CmdSubDocMultiLookup {
+			return true
+		}
+	}
+	return false
+}
 
 func (s *scLife) TuneMember(w *World, m *Member) {
 	if s.prop == "C14" && m.id <= len(s.groups) {
